@@ -482,8 +482,18 @@ struct StorHarness : Harness
         }
         prev_name[slot % 2] = this_name;
         prev_uri[slot % 2] = uri;
-        if (set_while_running)
+        if (set_while_running) {
             setline += " force=1"; // the previous cycle was not stopped
+            if (g.chance(0.3)) {
+                // ... and first with a target that cannot be created: the
+                // set is refused, the interrupted file must be whole all the
+                // same, and the device can be configured properly afterwards
+                snprintf(b, sizeof(b),
+                         "set slot=%d uri=nodir name=%s meta=%s px=1 py=1 force=1",
+                         slot, plain_name.c_str(), ms.c_str());
+                ops.push_back(b);
+            }
+        }
         ops.push_back(setline);
         // frame ids are the caller's: they need not start at 0 in a file
         snprintf(b, sizeof(b), "start slot=%d fid=%llu", slot,
@@ -997,6 +1007,8 @@ struct StorHarness : Harness
                     if (scratch.empty())
                         scratch = simfs::scratch_dir();
                     path = scratch + "/" + name;
+                    if (spelling == "nodir")
+                        path = scratch + "/no-such-directory/" + name;
                     base = path;
                     if (spelling == "filerel" || spelling == "fileabs")
                         base = "file://" + path;
@@ -1008,7 +1020,15 @@ struct StorHarness : Harness
                     base = abs ? path : rel;
                     if (spelling == "filerel" || spelling == "fileabs")
                         base = "file://" + base;
+                    if (spelling == "nodir") {
+                        // a target the device cannot create: the set is
+                        // expected to be refused
+                        path = "/sim/no-such-directory/" + rel;
+                        base = path;
+                    }
                 }
+                const bool nodir = spelling == "nodir";
+                const std::string old_path = s.path, old_meta = s.meta;
                 s.can_restart = false;
                 s.meta = user_meta(op.s("meta", "none"));
                 struct StorageProperties props;
@@ -1035,13 +1055,61 @@ struct StorHarness : Harness
                         s.started = false;
                         s.can_restart = false;
                         s.cycles++;
+                        // The acquisition that was being written is over, and
+                        // every frame appended to it had been acknowledged:
+                        // its file is judged like that of a stopped one
+                        // (whether the new configuration was accepted or
+                        // not).  Fault runs: only when nothing failed so far.
+                        const char* own = s.kind == "raw"
+                                            ? "C14.file_differs"
+                                            : "C15.invalid_bigtiff";
+                        bool judge = !s.big && oracle_gates(own) &&
+                                     s.kind != "trash" &&
+                                     (!c->faults ||
+                                      (s.cycle_clean && !s.absorbed &&
+                                       !pwrite_failed_since(ev0) &&
+                                       !create_failed_since(ev0) &&
+                                       !close_failed_since(ev0)));
+                        if (judge) {
+                            probe("reach.interrupted_file_judged");
+                            if (s.kind == "raw") {
+                                const std::vector<uint8_t>* f =
+                                  simfs::contents(old_path);
+                                if (!f || *f != s.cycle_bytes)
+                                    oracle_fail(
+                                      "C14.file_differs",
+                                      "raw: the device was configured again "
+                                      "while running; %s, which it was "
+                                      "writing, holds %zu bytes but the %zu "
+                                      "bytes appended so far were expected",
+                                      old_path.c_str(),
+                                      f ? f->size() : (size_t)0,
+                                      s.cycle_bytes.size());
+                            } else if (!s.cycle_frames.empty()) {
+                                // (judged against the metadata it was
+                                // started with)
+                                const std::string new_meta = s.meta;
+                                s.meta = old_meta;
+                                check_tiff(s,
+                                           s.kind == "tiff"
+                                             ? old_path
+                                             : old_path + "/data.tif",
+                                           s.kind == "tiff", s.cycle_frames,
+                                           s.cycle_frames.size());
+                                s.meta = new_meta;
+                            }
+                        }
                     }
+                }
+                if (nodir) {
+                    probe("reach.set_with_uncreatable_target");
+                    s.configured = false; // whatever the answer: not started
                 }
                 // tiff-json insists on a JSON metadata string (it rejects the
                 // empty string that stands for "none"): that is input
                 // validation, not judged here
                 bool must_accept =
-                  s.kind != "tiffjson" || !s.meta.empty();
+                  !nodir && (s.kind != "tiffjson" || !s.meta.empty());
                 if (!s.configured && !c->faults && must_accept)
                     oracle_fail(s.kind == "raw" ? "C14.set_rejected"
                                                 : "C15.set_rejected",
